@@ -47,7 +47,7 @@ SAFE_BUILTINS = {
     'len': len, 'chr': chr, 'ord': ord, 'range': range, 'all': all, 'any': any, 'sorted': sorted, 'min': min, 'max': max,
     'str': str, 'int': int, 'list': list, 'tuple': tuple, 'set': set, 'frozenset': frozenset, 'bool': bool, 'repr': repr,
     'enumerate': enumerate, 'zip': zip, 'reversed': reversed, 'sum': sum, 'isinstance': isinstance, 'type': type,
-    'dict': dict, 'abs': abs, 'OrderedDict': dict, 'bytes': bytes, 'float': float, 'round': round, 'divmod': divmod, 'map': map, 'filter': filter, 'namedtuple': collections.namedtuple, 'next': next, 'iter': iter, 'callable': callable, 'hash': hash, 'id': id, 'pow': pow,
+    'dict': dict, 'abs': abs, 'OrderedDict': dict, 'bytes': bytes, 'float': float, 'round': round, 'divmod': divmod, 'map': map, 'filter': filter, 'namedtuple': collections.namedtuple, 'dir': dir, 'next': next, 'iter': iter, 'callable': callable, 'hash': hash, 'id': id, 'pow': pow,
     'Counter': collections.Counter, 'defaultdict': collections.defaultdict, 'ValueError': ValueError, 'KeyError': KeyError, 'TypeError': TypeError,
     'Exception': Exception, 'IndexError': IndexError, 'AttributeError': AttributeError,
 }
